@@ -7,7 +7,7 @@ CHECKS = {
  "C01": ("arxv-seq", "generated pipelines over every operator family fed by ill-formed cold and hot source scripts; every recorder history must match next*(error|complete)? and Subscription::is_subscribed() must be false after a terminal. Bounded exploration (depth, script length): no absence claim.",
          "trusted: arx_rt runtime (selftest), the flattening/redirect of /repo/src, harness sources and recorders",
          PBT + " with a history-invariant oracle over generated pipelines and ill-formed event scripts"),
- "C02": ("arxv-seq", "generated single-source operator chains x item sequences x endings x parameters, and every creation function; exact trace equality with an independent reference interpreter (differential).",
+ "C02": ("arxv-seq", "generated single-source operator chains x item sequences x endings x parameters (also at large sizes: inputs of hundreds of items, counts up to usize::MAX), and every creation function; exact trace equality with an independent reference interpreter (differential).",
          "trusted: the reference interpreter harness/src/model.rs and its conventions (DESIGN.md 2.5)",
          PBT + " with a differential oracle (reference interpreter mini-Rx)"),
  "C03": ("arxv-seq", "generated multi-source pipelines (merge, concat, zip, combine_latest, amb, take_until, skip_until, sample, flat_map, sequence_equal, ready_set_go) over hot sources (harness sources and the crate's own subjects) driven in a generated sequential order and cold sources; exact trace equality with the reference interpreter; switch_on_next over two hot inputs against a trace computed from the history.",
@@ -40,7 +40,7 @@ CHECKS.update({
  "C09": ("arxv-conc", "generated scripts through [ops] observe_on|subscribe_on (also stacked) [ops] with an emitter thread or a synchronous source, an optional unsubscribing thread, an optional item pushed from the subscriber's own callback on the worker, an optional second subscription of the same observable" + CONC + "; received must equal the reference trace without scheduler operators (prefix if unsubscribed), one worker thread, no overlapping callbacks.",
          "trusted: reference interpreter for the scheduler-free pipeline",
          PBT + " with differential + history oracles" + CONC),
- "C10": ("arxv-seq", "generated call histories over subscribe/unsubscribe/next/error/complete with 3 observers on the four subject types, including a subscribe or a next issued from inside a callback; per-observer traces and the registered-observer count after every call must equal the reference state machine.",
+ "C10": ("arxv-seq", "generated call histories over subscribe/unsubscribe/next/error/complete with 3 observers (sub-check large: up to 40 observers, 160 calls) on the four subject types, including a subscribe or a next issued from inside a callback; per-observer traces and the registered-observer count after every call must equal the reference state machine.",
          "trusted: reference state machine (model.rs MHot); observer count accessor appended to the generated copy",
          PBT + " (stateful: generated call histories) with a reference state machine"),
  "C11": ("arxv-conc", "2..3 inputs with unique item scripts pushed by harness threads or played on scheduler threads into merge / zip / amb / concat / flat_map, optional take or aggregate (count / sum / reduce / max) downstream" + CONC + "; conservation, per-input order, pairing, exactly one complete and last, take(n) <= n, aggregate over all inputs' items.",
@@ -55,7 +55,7 @@ CHECKS.update({
  "C15": ("arxv-conc", "generated pipelines over interval / timer / observe_on / subscribe_on / delay / debounce / timeout ended by terminal, unsubscribe or early completion at generated virtual instants" + CONC + "; at quiescence every library-spawned thread must have finished within the pipeline's timer periods after the last subscription ended.",
          "virtual clock (computation takes no time); bound = sum of the periods in the pipeline",
          PBT + " on a virtual clock with a thread-table oracle" + CONC),
- "C16": ("arxv-conc", "period x gap-script grid for interval, timer, delay, timeout, sample, debounce, time_interval, and delay fed by two emitting threads" + CONC + "; (virtual time, event) pairs must equal the timing definition.",
+ "C16": ("arxv-conc", "period x gap-script grid for interval (also under a slow subscriber), timer, delay, timeout, sample, debounce, time_interval, and delay / timeout fed by two emitting threads" + CONC + "; (virtual time, event) pairs must equal the timing definition.",
          "virtual clock owned by the runtime (thread::sleep / Instant redirected)",
          PBT + " on a virtual clock with an exact timing oracle" + CONC),
  "C18": ("arxv-conc", "scripts pushed by an emitter thread (directly or through observe_on) or synchronously, awaited by a condvar block_on, optionally polled first with another waker or with a clone of the future dropped meanwhile" + CONC + "; the future resolves, never before the terminal, with exactly the items / the error.",
